@@ -13,17 +13,17 @@ Definition t_paren_as : text := [40; 97; 115; 41]%N.
 (* "(::)" *)
 Definition t_paren_cast : text := [40; 58; 58; 41]%N.
 
-(* reindent_total_refuted: format('(as)', reindent=True) raises IndexError (in StripWhitespaceFilter.
-   _stripws_parenthesis: group_as has wrapped '(', 'as', ')' into one Identifier, so the
-   Parenthesis has a single child and tokens[1] does not exist).  The real library agrees. *)
-Theorem reindent_total_refuted :
-  cur_reindent dflt_opts t_paren_as = Err IndexError /\
-  cur_reindent dflt_opts t_paren_cast = Err IndexError /\
-  cur_stripws_trees t_paren_as = Err IndexError.
-Proof. split; [|split]; vm_compute; reflexivity. Qed.
-Print Assumptions reindent_total_refuted.
+(* Until the fix of finding C07-RX-1 these were the refutation of totality (reindent_total_refuted):
+   format('(as)', reindent=True) raised IndexError in StripWhitespaceFilter._stripws_parenthesis (group_as has wrapped
+   '(', 'as', ')' into one Identifier, so the Parenthesis has a single child and tokens[1] does not exist).  With the
+   guard `if len(tlist.tokens) < 2` the filter returns; the real library agrees. *)
+Theorem reindent_paren_as_fixed :
+  cur_reindent dflt_opts t_paren_as = Ok t_paren_as /\
+  cur_reindent dflt_opts t_paren_cast = Ok t_paren_cast.
+Proof. split; vm_compute; reflexivity. Qed.
+Print Assumptions reindent_paren_as_fixed.
 
-(* the tree that crashes: Statement(Parenthesis(Identifier('(' 'as' ')'))) *)
+(* the tree that used to crash: Statement(Parenthesis(Identifier('(' 'as' ')'))) *)
 Example paren_as_tree :
   cur_parse t_paren_as =
   Ok [Grp CStatement t_paren_as
